@@ -10,7 +10,7 @@ TRUSTED_BASE_COMMON = [
     "requestError, the pause / party / counter accessors of channel_state.go, the cache-seeding readers and the wiring of the block "
     "reports in channels.go), each proved equal to the hand-written model's definition in proofs/DecideEq.v; the translator refuses "
     "any statement or expression outside its subset",
-    "gen/GenHandlers.v: the manager's handlers (impl/utils.go, impl/restart.go, the API calls of impl/impl.go except the two opening calls, "
+    "gen/GenHandlers.v: the manager's handlers (impl/utils.go, impl/restart.go, every API call of impl/impl.go, "
     "every EventsHandler callback of impl/events.go, all of impl/receiving_requests.go and impl/receiver.go, and the "
     "event methods of channels/channels.go) translated by tools/dt2coq/handlers.go, statement by statement, into programs over Node.v's "
     "instruction set; proofs/HandlerEq.v proves each generated program equal in behaviour (same final interpreter state, same outputs, same "
